@@ -44,6 +44,20 @@ def obsStr : Obs Nat → String
   | .id i => "OBS id:" ++ i.render
   | .err e => "OBS err:" ++ sterr e
 
+/-- The three results `(slab, found, err)` of `PersistentSlabStorage.Retrieve` /
+    `RetrieveIgnoringDeltas` as the harness prints them.  Without an error `found = (slab != nil)`
+    (storage.go:901, 911, 925, 946).  With an error no slab comes back and `found` is what the base
+    storage answered: `return nil, ok, wrap(err)` (storage.go:908) hands on the flag the failing
+    `BaseStorage.Retrieve` returned (`bfound`: chosen by the harness's ledger, told in the `ST` line),
+    `return nil, ok, err` after a failed `DecodeSlab` (storage.go:917) is reached only behind
+    `if !ok { return }`, so the flag is true there. -/
+def readObsStr (bfound : Bool) : Obs Nat → String
+  | .slab v => "OBS slab:" ++ optVer v ++ (if v.isSome then " found=1" else " found=0")
+  | .err .decoding => "OBS err:" ++ sterr .decoding ++ " found=1 slab=nil"
+  | .err .external => "OBS err:" ++ sterr .external ++ (if bfound then " found=1" else " found=0") ++ " slab=nil"
+  | .err e => "OBS err:" ++ sterr e ++ " found=0 slab=nil"
+  | o => obsStr o
+
 def viewLine (s : StorState) : String :=
   "VIEW " ++ " ".intercalate (s.ids.map (fun id =>
     let served :=
@@ -87,13 +101,18 @@ def applyOp (s : StorState) (name : String) (fs : List (String × String)) (line
     let (st', obs) := St.step natCodec s.st op
     let s' := { s with st := st' }
     { s' with pending := [obsStr obs, s'.viewLine, s'.cntLine] }
+  -- the retrieve flavours that return `(slab, found, err)`
+  let runRead := fun (op : Op Nat) =>
+    let (st', obs) := St.step natCodec s.st op
+    let s' := { s with st := st' }
+    { s' with pending := [readObsStr false obs, s'.viewLine, s'.cntLine] }
   match name with
   | "new" => { st := St.init, ids := parseIDs ((fget fs "ids").getD ""), rep := s.rep }
   | "store" => run (.store id ((fnat fs "ver").getD 0))
   | "remove" => run (.remove id)
-  | "get" => run (.retrieve id)
+  | "get" => runRead (.retrieve id)
   | "getloaded" => run (.retrieveIfLoaded id)
-  | "getnodelta" => run (.retrieveIgnoringDeltas id ((fnat fs "cache").getD 0 == 1))
+  | "getnodelta" => runRead (.retrieveIgnoringDeltas id ((fnat fs "cache").getD 0 == 1))
   | "dropdeltas" =>
     let s' := { s with st := s.st.dropDeltas }
     { s' with pending := [s'.viewLine, s'.cntLine] }
@@ -120,7 +139,7 @@ def applyOp (s : StorState) (name : String) (fs : List (String × String)) (line
     let obs : Obs Nat := match hit with
       | some v => .slab v
       | none => .err .external
-    { s with pending := [obsStr obs, s.viewLine, s.cntLine] }
+    { s with pending := [readObsStr ((fnat fs "bfound").getD 0 == 1) obs, s.viewLine, s.cntLine] }
   | "failgenid" =>
     -- GenerateSlabID with a failing ledger allocation: temporary identifiers do not reach the ledger
     let a := (fnat fs "addr").getD 0
